@@ -146,7 +146,7 @@ def canon(v):
     if isinstance(v, (list, tuple)):
         return [canon(x) for x in v]
     if isinstance(v, dict) and not (len(v) == 1 and "x" in v):
-        return {k: canon(x) for k, x in v.items()}
+        return {k: canon(x) for k, x in v.items() if not (isinstance(k, str) and k.startswith("_"))}
     return v
 
 
